@@ -352,6 +352,8 @@ def write_evidence(ctx, mod, col, wall, nviol, extra=None):
         'counters': {k: v for k, v in sorted(col.counters.items()) if not k.startswith('task_s:')},
         'task_ms': {k[7:]: v for k, v in sorted(col.counters.items()) if k.startswith('task_s:')},
     }
+    if col.notes:
+        cov['notes'] = sorted(set(col.notes))[:10]
     ex = getattr(mod, 'EXHAUSTIVE', None)
     if ex:
         cov['exhaustive'] = True
